@@ -12,6 +12,7 @@
 // reference splines / hat functions).
 //
 // parts: --part interp --type linear|cubic|akima | --part fit --type linear|cubic | --part table
+//        --part reuse --type linear|cubic|akima|table   (object reuse, keys *-reuse/*)
 #include "vfh.h"
 #include <csignal>
 #include <fstream>
@@ -517,6 +518,70 @@ static void part_fit(vfh::Rng &rng, vfh::Reporter &R, long ncases, int type) {
   }
 }
 
+// ================================================================ grid-size rule, decimal numbers
+// the double a parser produces for the decimal number milli/1000
+static double dec3(long milli) {
+  char b[64];
+  snprintf(b, sizeof b, "%s%ld.%03ld", milli < 0 ? "-" : "", std::labs(milli) / 1000, std::labs(milli) % 1000);
+  return strtod(b, nullptr);
+}
+// number of points of a grid min:step:max. An integer number of steps up to rounding (decimal grids such as
+// 0:0.1:0.7, where (max-min)/step is one ulp below 7) must give round()+1 points; a ratio that is genuinely
+// just below an integer (by 1e-9..1e-6) lies inside the code's own 1e-8 slack and is a don't-care.
+static long grid_points(double mn, double mx, double sp, bool &dontcare) {
+  LD ratio = ((LD)mx - (LD)mn) / (LD)sp;
+  dontcare = false;
+  if (fabsl(ratio - roundl(ratio)) <= 1e-9L * std::max((LD)1, ratio)) return (long)roundl(ratio) + 1;
+  if (ratio - floorl(ratio) >= 1 - 1e-6L) dontcare = true;
+  return (long)floorl(ratio) + 1;
+}
+struct GridSpec {
+  double mn, mx, sp;
+  bool decimal;
+};
+static GridSpec gen_gridspec(vfh::Rng &rng) {
+  GridSpec g;
+  g.decimal = rng.coin(0.4);
+  if (g.decimal) {
+    static const long steps[] = {1, 2, 5, 10, 20, 25, 50, 100, 125, 200, 250, 500};
+    long sm = steps[rng.range(0, 11)], k = rng.range(1, 400);
+    long m0 = rng.coin(0.5) ? sm * rng.range(-20, 40) : rng.range(-2000, 4000);
+    int fixed = (int)rng.range(0, 9);
+    if (fixed == 0) { m0 = 0; sm = 100; k = 7; }     // 0:0.1:0.7
+    if (fixed == 1) { m0 = 50; sm = 50; k = 24; }    // 0.05:0.05:1.25
+    if (fixed == 2) { m0 = 0; sm = 10; k = 136; }    // 0:0.01:1.36
+    g.sp = dec3(sm); g.mn = dec3(m0); g.mx = dec3(m0 + k * sm);
+  } else {
+    long n = rng.range(2, 500);
+    g.mn = rng.coin(0.3) ? 0.0 : rng.uni(-20, 20);
+    g.sp = rng.logu(1e-3, 1);
+    if (rng.coin(0.5)) g.sp = std::max(1e-3, std::round(g.sp * 1000) / 1000);
+    g.mx = g.mn + g.sp * ((double)(n - 1) + (rng.coin(0.3) ? rng.uni(0.05, 0.95) : 0.0));
+  }
+  return g;
+}
+// judge the result of Table::GenerateGridSpacing; returns false when a violation was reported
+static bool judge_gridspacing(vfh::Reporter &R, Table &t, const GridSpec &g, const std::string &keypref, const std::string &wj) {
+  bool dontcare;
+  long nexp = grid_points(g.mn, g.mx, g.sp, dontcare);
+  if (g.decimal) R.counter("gridspacing_decimal_grids");
+  if (t.size() != nexp) {
+    if (dontcare) { R.counter("gridspacing_just_below_integer_ratio_dontcare"); return true; }
+    R.violation(keypref + "/size", "GenerateGridSpacing: number of points differs from (max-min)/spacing+1", J().raw("case", wj).i("got", t.size()).i("expected", nexp));
+    return false;
+  }
+  bool ok = t.x(0) == g.mn && t.x(nexp - 1) == g.mx;
+  double hs = nexp > 1 ? (g.mx - g.mn) / (double)(nexp - 1) : 0.0;
+  double tolx = 1e-9 * hs + 16 * EPS * (double)nexp * std::max(std::fabs(g.mn), std::fabs(g.mx));
+  for (long i = 1; ok && i < nexp; ++i) {
+    ok = t.x(i) > t.x(i - 1) && std::fabs(t.x(i) - (g.mn + hs * (double)i)) <= tolx;
+    // an integer number of steps: x_i = min + i*step
+    if (ok && g.decimal) ok = std::fabs(t.x(i) - (double)((LD)g.mn + (LD)i * (LD)g.sp)) <= tolx;
+  }
+  if (!ok) { R.violation(keypref + "/points", "GenerateGridSpacing: end points not pinned or grid points off min+i*step", J().raw("case", wj).vec("grid", ev(t.x()))); return false; }
+  return true;
+}
+
 // ================================================================ part: tables
 static void part_table(vfh::Rng &rng, vfh::Reporter &R, long ncases, const std::string &tmp) {
   for (long ic = 0; ic < ncases; ++ic) {
@@ -590,27 +655,250 @@ static void part_table(vfh::Rng &rng, vfh::Reporter &R, long ncases, const std::
     }
     // ---------------- GenerateGridSpacing
     {
-      long n = rng.range(2, 500);
-      double mn = rng.coin(0.3) ? 0.0 : rng.uni(-20, 20), sp = rng.logu(1e-3, 1);
-      if (rng.coin(0.5)) sp = std::max(1e-3, std::round(sp * 1000) / 1000);
-      double mx = mn + sp * ((double)(n - 1) + (rng.coin(0.3) ? rng.uni(0.05, 0.95) : 0.0));
+      GridSpec g = gen_gridspec(rng);
       Table t;
       J w;
-      w.d("min", mn).d("max", mx).d("spacing", sp);
+      w.d("min", g.mn).d("max", g.mx).d("spacing", g.sp).b("decimal", g.decimal);
       vfh::set_case(w.str());
-      t.GenerateGridSpacing(mn, mx, sp);
+      t.GenerateGridSpacing(g.mn, g.mx, g.sp);
       R.eval("table_gridspacing");
-      LD ratio = ((LD)mx - (LD)mn) / (LD)sp;
-      long nexp = (long)floorl(ratio + 1.00000001L);
-      if (t.size() != nexp) {
-        if (fabsl(ratio - roundl(ratio)) < 1e-6L) R.counter("gridspacing_near_integer_ratio_dontcare");
-        else R.violation("table/gridspacing/size", "GenerateGridSpacing: number of points differs from (max-min)/spacing+1", J().raw("case", w.str()).i("got", t.size()).i("expected", nexp));
-        continue;
+      judge_gridspacing(R, t, g, "table/gridspacing", w.str());
+    }
+  }
+}
+
+
+// ================================================================ part: object reuse
+// A used object must behave exactly like a fresh one: spline objects that are Interpolate()d / Fit()ted
+// again with other data, sizes, grids and boundary settings; Table objects that are resized, loaded,
+// smoothed and gridded again.
+static bool same(double a, double b) { return a == b || (std::isnan(a) && std::isnan(b)); }
+static bool nearly(double a, double b) {  // identical up to the last digits (same code path, same inputs)
+  return same(a, b) || std::fabs(a - b) <= 1e-12 * std::max(std::fabs(a), std::fabs(b));
+}
+struct SpOp {
+  int kind;  // 0 Interpolate  1 GenerateGrid+Fit  2 Fit on the grid generated by the previous Fit op
+  int bc;    // 0 natural 1 periodic 2 derivativezero
+  bool bcint;
+  Eigen::VectorXd x, y;  // data
+  double ga = 0, gb = 0, gh = 0;  // fit grid
+  std::string json() const {
+    J j;
+    j.s("op", kind == 0 ? "Interpolate" : kind == 1 ? "GenerateGrid+Fit" : "Fit(same grid)").s("bc", bc == 0 ? "natural" : bc == 1 ? "periodic" : "derivativezero").b("via_setBCInt", bcint)
+        .vec("x", ev(x)).vec("y", ev(y));
+    if (kind) j.d("grid_min", ga).d("grid_max", gb).d("grid_step", gh);
+    return j.str();
+  }
+};
+static void apply_bc(Spline &sp, const SpOp &o) {
+  if (o.bcint) sp.setBCInt(o.bc);
+  else sp.setBC(o.bc == 0 ? Spline::splineNormal : o.bc == 1 ? Spline::splinePeriodic : Spline::splineDerivativeZero);
+}
+// returns the what() of an exception, "" when none
+static std::string apply_op(Spline &sp, const SpOp &o) {
+  try {
+    apply_bc(sp, o);
+    if (o.kind == 0) sp.Interpolate(o.x, o.y);
+    else {
+      if (o.kind == 1) sp.GenerateGrid(o.ga, o.gb, o.gh);
+      sp.Fit(o.x, o.y);
+    }
+  } catch (std::exception &e) { return std::string("exception: ") + e.what(); }
+  return "";
+}
+static SpOp gen_interp_op(vfh::Rng &rng, int type, const SpOp *prev, int variant) {
+  const long nmin = type == 0 ? 2 : type == 1 ? 3 : 4;
+  SpOp o;
+  o.kind = 0;
+  o.bcint = rng.coin();
+  o.bc = type == 0 ? (int)rng.range(0, 2) : (int)rng.range(0, 1);
+  bool uni;
+  bool prev_interp = prev && prev->kind == 0;
+  if (prev_interp && variant == 1) { o.x = gen_grid(rng, prev->x.size(), uni); }                       // same size, other grid
+  else if (prev_interp && variant == 2) { o.x = prev->x; }                                             // same grid, other ordinates
+  else if (prev_interp && variant == 3) { o.x = prev->x; o.y = prev->y; o.bc = type == 0 ? (prev->bc + 1) % 3 : 1 - prev->bc; }  // only the boundary setting changes
+  else { long n = gen_n(rng, nmin); if (prev_interp && n == prev->x.size()) ++n; o.x = gen_grid(rng, n, uni); }  // other size
+  if (o.y.size() == 0) o.y = gen_y(rng, o.x, (int)rng.range(0, 4));
+  if (o.bc == 1) o.y[o.y.size() - 1] = o.y[0];
+  return o;
+}
+static SpOp gen_fit_op(vfh::Rng &rng, const SpOp *prevfit, bool samegrid) {
+  SpOp o;
+  o.kind = samegrid ? 2 : 1;
+  o.bcint = rng.coin();
+  o.bc = (int)rng.range(0, 2);
+  long ng;
+  if (samegrid) { o.ga = prevfit->ga; o.gb = prevfit->gb; o.gh = prevfit->gh; o.bc = prevfit->bc; ng = (long)std::llround((o.gb - o.ga) / o.gh) + 1; }
+  else {
+    ng = rng.range(4, 16);
+    o.gh = rng.logu(0.02, 2);
+    o.ga = rng.coin(0.4) ? 0.0 : rng.uni(-20, 20) * o.gh;
+    o.gb = o.ga + o.gh * (double)(ng - 1);
+  }
+  long per = rng.range(4, 7), N = (ng - 1) * per + 1;
+  o.x.resize(N);
+  for (long i = 0; i < N; ++i) o.x[i] = o.ga + (o.gb - o.ga) * (double)i / (double)(N - 1);
+  o.y = gen_y(rng, o.x, (int)rng.range(0, 4));
+  return o;
+}
+static void part_reuse_spline(vfh::Rng &rng, vfh::Reporter &R, long ncases, int type) {
+  static const char *pat_name[] = {"interpolate-twice", "fit-after-interpolate", "interpolate-after-fit", "fit-twice", "generategrid-fit-twice", "interpolate-twice"};
+  for (long ic = 0; ic < ncases; ++ic) {
+    int pat = (int)(ic % 6);
+    if (type == 2 && pat >= 1 && pat <= 4) pat = (pat % 2) ? 0 : 5;  // Akima: no Fit
+    std::vector<SpOp> ops;
+    if (pat == 0) { ops.push_back(gen_interp_op(rng, type, nullptr, 0)); ops.push_back(gen_interp_op(rng, type, &ops[0], (int)((ic / 6) % 4))); }
+    else if (pat == 1) { ops.push_back(gen_interp_op(rng, type, nullptr, 0)); ops.push_back(gen_fit_op(rng, nullptr, false)); }
+    else if (pat == 2) { ops.push_back(gen_fit_op(rng, nullptr, false)); ops.push_back(gen_interp_op(rng, type, nullptr, 0)); }
+    else if (pat == 3) { ops.push_back(gen_fit_op(rng, nullptr, false)); ops.push_back(gen_fit_op(rng, nullptr, false)); }
+    else if (pat == 4) { ops.push_back(gen_fit_op(rng, nullptr, false)); SpOp o2 = gen_fit_op(rng, &ops[0], true); ops.push_back(o2); }
+    else {
+      ops.push_back(gen_interp_op(rng, type, nullptr, 0));
+      SpOp o2 = gen_interp_op(rng, type, &ops[0], (int)rng.range(0, 3));
+      ops.push_back(o2);
+      SpOp o3 = gen_interp_op(rng, type, &ops[1], (int)rng.range(0, 3));
+      ops.push_back(o3);
+    }
+    std::string fam = std::string("spline-reuse/") + tname(type) + "/" + pat_name[pat];
+    std::string wj = "[";
+    for (size_t k = 0; k < ops.size(); ++k) wj += (k ? "," : "") + ops[k].json();
+    wj += "]";
+    vfh::set_case(wj);
+    auto used = make_spline(type), fresh = make_spline(type);
+    std::string eu;
+    for (size_t k = 0; k < ops.size(); ++k) {
+      eu = apply_op(*used, ops[k]);
+      // the object is really used between the operations
+      if (eu.empty() && k + 1 < ops.size()) {
+        const Eigen::VectorXd &g = used->getX();
+        for (int q = 0; q < 3; ++q) { double t = g[0] + rng.uni(-0.2, 1.2) * (g[g.size() - 1] - g[0]); (void)used->Calculate(t); (void)used->CalculateDerivative(t); }
       }
-      bool ok = t.x(0) == mn && t.x(nexp - 1) == mx;
-      double hs = (mx - mn) / (double)(nexp - 1);
-      for (long i = 1; ok && i < nexp; ++i) ok = t.x(i) > t.x(i - 1) && std::fabs(t.x(i) - (mn + hs * (double)i)) <= 1e-9 * hs + 16 * EPS * (double)nexp * std::max(std::fabs(mn), std::fabs(mx));
-      if (!ok) R.violation("table/gridspacing/points", "GenerateGridSpacing: end points not pinned or grid not evenly spaced", J().raw("case", w.str()).vec("grid", ev(t.x())));
+    }
+    const SpOp &last = ops.back();
+    SpOp lf = last;
+    if (lf.kind == 2) lf.kind = 1;  // the fresh object generates the same grid itself
+    std::string ef = apply_op(*fresh, lf);
+    R.eval(std::string("spline-reuse_") + tname(type) + "_" + pat_name[pat]);
+    if (eu != ef) {
+      R.violation(fam, "the reused object and a fresh object disagree on accepting the last operation", J().raw("operations", wj).s("reused", eu).s("fresh", ef));
+      continue;
+    }
+    if (!ef.empty()) { R.counter("reuse_last_operation_rejected_by_both:" + ef.substr(0, 60)); continue; }
+    const Eigen::VectorXd gu = used->getX(), gf = fresh->getX();
+    bool bad = gu.size() != gf.size();
+    for (long i = 0; !bad && i < gf.size(); ++i) bad = !same(gu[i], gf[i]);
+    if (bad) {
+      R.violation(fam, "grid of the reused object differs from the grid of a fresh object", J().raw("operations", wj).vec("grid_reused", ev(gu)).vec("grid_fresh", ev(gf)));
+      continue;
+    }
+    const long nk = gf.size();
+    const double L = gf[nk - 1] - gf[0];
+    for (int q = 0; q < 24 && !bad; ++q) {
+      long iv = rng.range(0, nk - 2);
+      double t = q < 4 ? gf[q == 0 ? 0 : q == 1 ? nk - 1 : q == 2 ? 1 % nk : nk - 2]
+                       : q < 8 ? (q % 2 ? gf[0] - rng.logu(1e-3, 2) * L : gf[nk - 1] + rng.logu(1e-3, 2) * L)
+                               : gf[iv] + rng.uni() * (gf[iv + 1] - gf[iv]);
+      double vu = used->Calculate(t), vf = fresh->Calculate(t), du = used->CalculateDerivative(t), df = fresh->CalculateDerivative(t);
+      if (!nearly(vu, vf) || !nearly(du, df)) {
+        bad = true;
+        R.violation(fam, "a spline object used before answers differently from a fresh object given the same last operation",
+                    J().raw("operations", wj).d("at", t).d("value_reused", vu).d("value_fresh", vf).d("derivative_reused", du).d("derivative_fresh", df));
+      }
+    }
+    if (!bad) {
+      uint64_t h = vfh::hstr(17, fam);
+      h = vfh::hdouble(h, last.x[last.x.size() - 1]); h = vfh::hdouble(h, last.y[0]); h = vfh::hmix(h, (uint64_t)ops[0].x.size());
+      R.nontrivial(h);
+      if (R.want_sample() && last.x.size() <= 6 && ops[0].x.size() <= 6) R.sample(J().raw("operations", wj).d("value_at_first_knot_reused", used->Calculate(gf[0])).d("value_at_first_knot_fresh", fresh->Calculate(gf[0])));
+    }
+  }
+}
+
+static bool tables_equal(Table &a, Table &b, std::string &why) {
+  if (a.size() != b.size()) { why = "size"; return false; }
+  for (Index i = 0; i < a.size(); ++i) {
+    if (!same(a.x(i), b.x(i))) { why = "x"; return false; }
+    if (!same(a.y(i), b.y(i))) { why = "y"; return false; }
+    if (a.flags(i) != b.flags(i)) { why = "flags"; return false; }
+  }
+  return true;
+}
+static void fill_table(vfh::Rng &rng, Table &t, long n, std::vector<double> &xs, std::vector<double> &ys, std::string &fl) {
+  xs.clear(); ys.clear(); fl.clear();
+  double x = rng.uni(-10, 10), A = rng.logu(1e-3, 1e3);
+  for (long i = 0; i < n; ++i) {
+    x += rng.logu(1e-3, 1);
+    xs.push_back(x); ys.push_back(A * rng.normal()); fl += "iou"[rng.range(0, 2)];
+  }
+  t.resize(n);
+  for (long i = 0; i < n; ++i) t.set(i, xs[i], ys[i], fl[i]);
+}
+static void part_reuse_table(vfh::Rng &rng, vfh::Reporter &R, long ncases, const std::string &tmp) {
+  for (long ic = 0; ic < ncases; ++ic) {
+    int op = (int)(ic % 5);
+    std::vector<double> xs, ys;
+    std::string fl, why;
+    if (op == 0) {  // resize / set twice (growing and shrinking), optionally with the error column switched
+      long n1 = rng.range(1, 200), n2 = rng.range(1, 200);
+      Table used, fresh;
+      if (rng.coin(0.3)) used.SetHasYErr(true);
+      fill_table(rng, used, n1, xs, ys, fl);
+      if (rng.coin(0.3)) used.SetHasYErr(false);
+      fill_table(rng, used, n2, xs, ys, fl);
+      fresh.resize(n2);
+      for (long i = 0; i < n2; ++i) fresh.set(i, xs[i], ys[i], fl[i]);
+      J w; w.i("first_size", n1).vec("x", xs).vec("y", ys).s("flags", fl);
+      vfh::set_case(w.str());
+      R.eval("table-reuse_resize_set");
+      if (!tables_equal(used, fresh, why)) R.violation("table-reuse/resize-set-twice", "a table resized and set a second time differs from a fresh table (" + why + ")", J().raw("case", w.str()).i("size_reused", used.size()));
+      else R.nontrivial(vfh::hdouble(vfh::hmix(81, (uint64_t)(n1 * 1000 + n2)), ys[0]));
+    } else if (op == 1) {  // Load twice; clear + push_back
+      long n1 = rng.range(1, 200), n2 = rng.range(1, 200);
+      Table a, b, used, fresh;
+      std::vector<double> x1, y1; std::string f1;
+      fill_table(rng, a, n1, x1, y1, f1);
+      fill_table(rng, b, n2, xs, ys, fl);
+      std::string fa = tmp + "/a.tab", fb = tmp + "/b.tab";
+      a.Save(fa); b.Save(fb);
+      J w; w.i("first_size", n1).vec("x", xs).vec("y", ys).s("flags", fl);
+      vfh::set_case(w.str());
+      bool viaclear = rng.coin(0.3);
+      used.Load(fa);
+      if (viaclear) { used.clear(); for (long i = 0; i < n2; ++i) used.push_back(xs[i], ys[i], fl[i]); for (long i = 0; i < n2; ++i) fresh.push_back(xs[i], ys[i], fl[i]); }
+      else { used.Load(fb); fresh.Load(fb); }
+      R.eval("table-reuse_load");
+      if (viaclear && used.size() != n2) R.violation("table-reuse/clear", "clear() did not empty the table", J().raw("case", w.str()).i("size", used.size()));
+      else if (!tables_equal(used, fresh, why)) R.violation(viaclear ? "table-reuse/clear" : "table-reuse/load-twice", "a table loaded (or cleared and filled) a second time differs from a fresh table (" + why + ")", J().raw("case", w.str()).i("size_reused", used.size()).i("size_fresh", fresh.size()));
+      else R.nontrivial(vfh::hdouble(vfh::hmix(83, (uint64_t)(n1 * 1000 + n2)), ys[0]));
+      std::remove(fa.c_str()); std::remove(fb.c_str());
+    } else if (op == 2) {  // Smooth(a) then Smooth(b) == Smooth(a+b)
+      long n = rng.range(3, 200), a = rng.range(1, 4), b = rng.range(1, 4);
+      Table used, fresh;
+      fill_table(rng, used, n, xs, ys, fl);
+      fresh.resize(n);
+      for (long i = 0; i < n; ++i) fresh.set(i, xs[i], ys[i], fl[i]);
+      J w; w.i("first", a).i("second", b).vec("x", xs).vec("y", ys);
+      vfh::set_case(w.str());
+      used.Smooth(a); used.Smooth(b);
+      fresh.Smooth(a + b);
+      R.eval("table-reuse_smooth");
+      if (!tables_equal(used, fresh, why)) R.violation("table-reuse/smooth-twice", "Smooth(a) followed by Smooth(b) differs from Smooth(a+b) (" + why + ")", J().raw("case", w.str()).vec("y_twice", ev(used.y())).vec("y_once", ev(fresh.y())));
+      else R.nontrivial(vfh::hdouble(vfh::hmix(85, (uint64_t)(n * 100 + a * 10 + b)), ys[1]));
+    } else {  // GenerateGridSpacing twice with other parameters (op 4: on a table that was loaded/filled before)
+      GridSpec g1 = gen_gridspec(rng), g2 = gen_gridspec(rng);
+      Table used, fresh;
+      if (op == 4) fill_table(rng, used, rng.range(1, 300), xs, ys, fl);
+      J w;
+      w.d("first_min", g1.mn).d("first_max", g1.mx).d("first_spacing", g1.sp).d("min", g2.mn).d("max", g2.mx).d("spacing", g2.sp).b("decimal", g2.decimal).b("table_filled_before", op == 4);
+      vfh::set_case(w.str());
+      used.GenerateGridSpacing(g1.mn, g1.mx, g1.sp);
+      used.GenerateGridSpacing(g2.mn, g2.mx, g2.sp);
+      fresh.GenerateGridSpacing(g2.mn, g2.mx, g2.sp);
+      R.eval("table-reuse_gridspacing");
+      bool ok = used.size() == fresh.size();
+      for (Index i = 0; ok && i < fresh.size(); ++i) ok = same(used.x(i), fresh.x(i));
+      if (!ok) R.violation("table-reuse/gridspacing-twice", "GenerateGridSpacing on a used table differs from a fresh table", J().raw("case", w.str()).i("size_reused", used.size()).i("size_fresh", fresh.size()));
+      else if (judge_gridspacing(R, used, g2, "table-reuse/gridspacing", w.str())) R.nontrivial(vfh::hdouble(vfh::hdouble(vfh::hmix(87, (uint64_t)used.size()), g2.sp), g1.sp));
     }
   }
 }
@@ -639,6 +927,8 @@ int main(int argc, char **argv) {
   if (part == "interp") part_interp(rng, R, n, type);
   else if (part == "fit") part_fit(rng, R, n, type);
   else if (part == "table") part_table(rng, R, n, tmp);
+  else if (part == "reuse" && ty == "table") part_reuse_table(rng, R, n, tmp);
+  else if (part == "reuse") part_reuse_spline(rng, R, n, type);
   else { std::cerr << "unknown part\n"; return 3; }
   R.summary();
   for (auto &kv : g_worst) std::cerr << "STAT worst diff/tol " << kv.first << " " << kv.second << "\n";
